@@ -127,6 +127,8 @@ NxtRestart(s, e) == [s EXCEPT !.m = Observed(e, e.hsp), !.mm = [DecRestart(s.B, 
 ChkLapOut(s, e) ==
   \* (after a half-rate toggle on a running decoder the buffer bookkeeping and the flag disagree until the next restart: the count is
   \*  then meaningless, possibly negative, which the caller sees as a failure; only indices inside the buffer are demanded)
-  (IF e.n < 0 /\ ~s.hsdirty THEN {"LapOutNonNegative"} ELSE {}) \cup
+  \* (after a track-only block - lastk = -1 - lW / W no longer describe what the buffer holds and lapout consolidates by the wrong rule: its count can be
+  \*  negative then, see PktDec_MC.LapoutOK; demanded for blocks that were decoded)
+  (IF e.n < 0 /\ ~s.hsdirty /\ s.lastk # -1 THEN {"LapOutNonNegative"} ELSE {}) \cup
   (IF ~StoreOK(ActualB(s, e), Observed(e, e.hsp)) THEN {"BufferInsideRing"} ELSE {})
 =============================================================================
